@@ -89,6 +89,9 @@ pub struct Case {
     /// or file + duplication to stderr/stdout)
     #[serde(default)]
     pub std_out: Option<StdKind>,
+    /// Logger::use_utc() (a process-wide setting: only in cases that run in a child process)
+    #[serde(default)]
+    pub utc: bool,
 }
 
 #[derive(Clone, Copy, Debug, Serialize, Deserialize, PartialEq, Eq)]
@@ -109,7 +112,7 @@ fn expected_segs(case: &Case, base: i64, thread: &str, needs_ts: bool) -> Vec<Se
     let mut t = base;
     let mut segs = Vec::new();
     let seg_of = |r: &Rc, text: &str, t: i64| -> Seg {
-        let ts = ns_to_local(t).format(TS_FMT).to_string();
+        let ts = if case.utc { ns_to_local(t).with_timezone(&chrono::Utc).format(TS_FMT).to_string() } else { ns_to_local(t).format(TS_FMT).to_string() };
         if case.fmt == Fmt::Json {
             Seg::Json { rc: r.clone(), text: text.to_string(), ts }
         } else {
@@ -179,6 +182,7 @@ pub fn child_main(file: &std::path::Path) -> ! {
         .write_mode(mode.to_flexi())
         .error_channel(ErrorChannel::DevNull)
         .panic_if_error_channel_is_broken(false);
+    let l = if case.utc { l.use_utc() } else { l };
     let l = match case.std_out.unwrap_or(StdKind::Stdout) {
         StdKind::Stdout => l.log_to_stdout(),
         StdKind::Stderr => l.log_to_stderr(),
@@ -258,6 +262,9 @@ fn run_std(case: &Case, kind: StdKind) -> Outcome {
     }
     if case.tick {
         out.class("ticking-clock");
+    }
+    if case.utc {
+        out.class("use_utc");
     }
     out.nontrivial = recursive || matches!(kind, StdKind::FileDupErr | StdKind::FileDupOut);
     out
@@ -535,15 +542,17 @@ impl Property for P {
             any::<bool>(),
             prop::bool::weighted(0.4),
             prop::option::weighted(0.08, prop_oneof![Just(StdKind::Stdout), Just(StdKind::Stderr), Just(StdKind::Buffer), Just(StdKind::FileDupErr), Just(StdKind::FileDupOut)]),
+            prop::bool::weighted(0.4),
         )
-            .prop_flat_map(|(fmt, crlf, mode, t0, tick, multi, std_out)| {
+            .prop_flat_map(|(fmt, crlf, mode, t0, tick, multi, std_out, utc)| {
+                let utc = utc && std_out.is_some();
                 let dup = matches!(std_out, Some(StdKind::FileDupErr | StdKind::FileDupOut));
                 let multi = multi && std_out.is_none();
                 let crlf = crlf && std_out.is_none();
                 let allow_inner = !multi && !dup;
-                (Just((fmt, crlf, mode, t0, tick, multi, std_out)), prop::collection::vec(rc_strat(allow_inner), 1..8))
+                (Just((fmt, crlf, mode, t0, tick, multi, std_out, utc)), prop::collection::vec(rc_strat(allow_inner), 1..8))
             })
-            .prop_map(|((fmt, crlf, mode, t0, tick, multi, std_out), recs)| Case {
+            .prop_map(|((fmt, crlf, mode, t0, tick, multi, std_out, utc), recs)| Case {
                 tz: crate::vtime::tz_name(),
                 fmt,
                 crlf,
@@ -553,6 +562,7 @@ impl Property for P {
                 multi,
                 recs,
                 std_out,
+                utc,
             })
             .boxed()
     }
